@@ -22,7 +22,7 @@ META = dict(
     assumptions=['the symbolic variables are discrete selectors (which request comes next); the solver contributes exhaustiveness over request sequences, not arithmetic',
                  '"never changes the source" compares datasets, examples and alias contents before/after; an added empty alias section is not a change of stored aliases',
                  'real pickle and real JSON files in a scratch directory'],
-    bounds=dict(quick='16 database descriptions (1-3 merged parts, 0-2 aliases, alias section in first/later/no part, dict and non-dict extra keys, duplicate dataset/alias names, '
+    bounds=dict(quick='21 database descriptions (1-3 merged parts, 0-2 aliases, alias section in first/later/no part, dict and non-dict extra keys, duplicate dataset/alias names, '
                       'overlapping ids) x request sequences of length 2 over 9 request kinds, dict- and JSON-backed',
                 thorough='request sequences of length 3'),
     outside=['descriptions outside the family', 'request sequences longer than the bound'],
@@ -49,6 +49,11 @@ DESCS = {
     'dup_dataset':    ([{'datasets': {'dsA': A}}, {'datasets': {'dsA': B}}], 'reject'),
     'dup_alias':      ([{'datasets': {'dsA': A}, 'alias': {'al1': ['dsA']}}, {'datasets': {'dsB': B}, 'alias': {'al1': ['dsB']}}], 'reject'),
     'alias_eq_ds':    ([{'datasets': {'dsA': A}, 'alias': {'al1': ['dsA']}}, {'datasets': {'al1': B}}], 'reject'),
+    'dup_alias_23':   ([{'datasets': {'dsA': A}}, {'datasets': {'dsB': B}, 'alias': {'al1': ['dsB']}}, {'datasets': {'dsC': C}, 'alias': {'al1': ['dsC']}}], 'reject'),
+    'alias2_eq_ds3':  ([{'datasets': {'dsA': A}}, {'datasets': {'dsB': B}, 'alias': {'al1': ['dsB']}}, {'datasets': {'al1': C}}], 'reject'),
+    'ds2_eq_alias3':  ([{'datasets': {'dsA': A}}, {'datasets': {'dsB': B}}, {'datasets': {'dsC': C}, 'alias': {'dsB': ['dsC']}}], 'reject'),
+    'dup_dataset_23': ([{'datasets': {'dsA': A}}, {'datasets': {'dsB': B}}, {'datasets': {'dsB': C}}], 'reject'),
+    'alias1_eq_ds3':  ([{'datasets': {'dsA': A}, 'alias': {'al1': ['dsA']}}, {'datasets': {'dsB': B}}, {'datasets': {'al1': C}}], 'reject'),
     'overlap_ids':    ([{'datasets': {'dsA': A, 'dsX': A2}, 'alias': {'al1': ['dsA', 'dsX']}}], 'ok'),
     'empty_ds':       ([{'datasets': {'dsA': A, 'dsE': {}}}], 'ok'),
 }
@@ -133,6 +138,8 @@ def body_db(kind, desc, nreq, r0, r1, r2):
         try:
             if kind == 'dict':
                 db = DictDatabase(*parts) if desc != 'three' else DictDatabase(list(parts))
+                if construct == 'reject' and set(db.data) >= {'datasets'}:
+                    pass
                 _ = db.data
             else:
                 # (no tempfile.mkdtemp: it draws from `random`, which CrossHair replaces by a symbolic contract)
